@@ -76,6 +76,11 @@ def shards(tier, seed):
     for si, sec in enumerate(SECRETS):
         for vi in range(len(SIGNED)):
             out.append(('signed', si, vi))
+    if tier == 'thorough':
+        # two simultaneous substitutions (one in the signature, one in the payload) for two cookies
+        for si, vi in ((0, 0), (2, 1)):
+            for k in range(8):
+                out.append(('signed2', (si, k), vi))
     out.append(('swap', None, None))
     # seed extension: one more character in plain values (all strings <= 2 containing it)
     out.append(('plainx', ['é', '日', '\t', '%', '~', '\x7f', '😀', '|'][seed % 8], 2))
@@ -195,6 +200,38 @@ def work(spec):
                     core.add_violation(res, case, f'plain cookie {name}={v!r} sent back as {pair!r} reads {got!r}', sig=sig)
                 elif i % 200 == 0:
                     core.add_sample(res, {'set': v, 'cookie_header': pair, 'read': got})
+        elif kind == 'signed2':
+            _, (si, k), vi = spec
+            secret, value = SECRETS[si], SIGNED[vi]
+            name = 'n'
+            pair, err = emit_cookie(om, name, value, secret)
+            inner = pair[len(name) + 2:-1]
+            q = inner.index('?')
+            read_wsgi(om, pair, name, secret)
+            for p1 in range(1 + k, q, 8):
+                for p2 in range(q + 1, min(q + 9, len(inner))):
+                    for s1 in B64:
+                        for s2 in B64:
+                            if s1 == inner[p1] or s2 == inner[p2]:
+                                continue
+                            new = inner[:p1] + s1 + inner[p1 + 1:p2] + s2 + inner[p2 + 1:]
+                            hdr = f'{name}="{new}"'
+                            res['states'] += 1
+                            res['transitions'] += 1
+                            c['tampered'] += 1
+                            b0 = proxy.loads_calls
+                            proxy.armed = True
+                            try:
+                                g = read_direct(om, hdr, name, secret)
+                            except Exception as e:   # noqa
+                                g = f'<<raised {type(e).__name__}>>'
+                            finally:
+                                proxy.armed = False
+                            if g != MISSING or proxy.loads_calls != b0:
+                                core.add_violation(res, {'kind': 'signed', 'name': name, 'si': si, 'vi': vi, 'edit': f'substitute@{p1}:{s1}+@{p2}:{s2}',
+                                                         'header': hdr, 'secret': secret},
+                                                   f'double substitution sent as {hdr!r}: read {g!r}', sig='forged:accepted')
+            core.add_sample(res, {'double_substitutions_of': repr(value), 'secret': secret})
         elif kind == 'signed':
             _, si, vi = spec
             secret, value = SECRETS[si], SIGNED[vi]
